@@ -931,7 +931,16 @@ var tStrLits = []string{"", "a", "abc", "foo", "foobar", "Bar", "x y", "a=b", "w
 var tRtimeLits = []struct {
 	src string
 	ms  int64
-}{{"0s", 0}, {"1s", 1000}, {"10s", 10000}, {"5m", 300000}, {"2h", 7200000}, {"1d", 86400000}, {"100ms", 100}, {"1.5s", 1500}, {"1ms", 1}}
+}{{"0s", 0}, {"1s", 1000}, {"10s", 10000}, {"5m", 300000}, {"2h", 7200000}, {"1d", 86400000}, {"100ms", 100}, {"1.5s", 1500}, {"1ms", 1},
+	// every unit with a fractional count (a year is 365 days)
+	{"1500ms", 1500}, {"2.5s", 2500}, {"0.25m", 15000}, {"1.5m", 90000}, {"0.5h", 1800000}, {"1.5h", 5400000}, {"0.5d", 43200000}, {"1.5d", 129600000},
+	{"2d", 172800000}, {"1y", 31536000000}, {"0.5y", 15768000000}, {"2.25y", 70956000000}}
+
+// literal spellings other than plain decimals
+var tFloatExpLits = []struct {
+	src string
+	v   float64
+}{{"1e3", 1000}, {"1.5e2", 150}, {"2e0", 2}, {"2.5e1", 25}}
 var tPatterns = []string{"^a", "b$", "foo", "^foo(bar)?$", "[0-9]+", "(a)(b)?c", "^/path/(.*)$", "x.y", "^$", "(tic)-(tac)", "A1", "example\\.com"}
 
 func (g *TG) lit(t TType) TLit {
@@ -939,8 +948,15 @@ func (g *TG) lit(t TType) TLit {
 	switch t {
 	case TI:
 		v := tIntLits[r.Intn(len(tIntLits))]
+		if v >= 0 && r.Intn(8) == 0 {
+			return TLit{V: TVal{T: TI, I: v}, Src: "0x" + strconv.FormatInt(v, 16)}
+		}
 		return TLit{V: TVal{T: TI, I: v}, Src: strconv.FormatInt(v, 10)}
 	case TF:
+		if r.Intn(10) == 0 {
+			l := tFloatExpLits[r.Intn(len(tFloatExpLits))]
+			return TLit{V: TVal{T: TF, F: l.v}, Src: l.src}
+		}
 		v := tFloatLits[r.Intn(len(tFloatLits))]
 		s := strconv.FormatFloat(v, 'f', -1, 64)
 		if !strings.Contains(s, ".") {
